@@ -60,6 +60,9 @@ def hostile(shard, rnd):
         for kinds in ('A', 'F', 'AF'):
             for x in faults.deep_frames(rnd, depth, kinds):
                 yield x[0], x[1] + ':%d' % depth
+    for depth in shard.get('deep_fault', ()):
+        for x in faults.deep_fault_frames(rnd, depth):
+            yield x
     for size in shard['big']:
         for x in faults.big_worst_cases(rnd, size):
             yield x
